@@ -530,6 +530,7 @@ EGLPNUM_TYPENAME_QSLIB_INTERFACE int EGLPNUM_TYPENAME_QSopt_strongbranch (
 	EGLPNUM_TYPE objbound)
 {
 	int rval = 0;
+	int i;
 
 	rval = check_qsdata_pointer (p);
 	CHECKRVALG (rval, CLEANUP);
@@ -538,6 +539,28 @@ EGLPNUM_TYPENAME_QSLIB_INTERFACE int EGLPNUM_TYPENAME_QSopt_strongbranch (
 	{
 		rval = 1;
 		CHECKRVALG (rval, CLEANUP);
+	}
+
+	/* the whole list is looked at before the first candidate is branched on:
+	 * a bad entry found half-way would leave the simplex data at the basis of
+	 * an earlier candidate's branch */
+	for (i = 0; i < ncand; i++)
+	{
+		if (candidatelist[i] < 0 || candidatelist[i] >= p->qslp->nstruct)
+		{
+			QSlog("entry %d in candidatelist out of range", i);
+			rval = 1;
+			goto CLEANUP;
+		}
+	}
+
+	if (p->factorok == 0)
+	{
+		QSlog("EGLPNUM_TYPENAME_QSopt_strongbranch: the simplex data of the problem are not current "
+								"(it was edited, its basis was replaced or it has not been solved "
+								"by EGLPNUM_TYPENAME_QSopt_primal/dual)");
+		rval = 1;
+		goto CLEANUP;
 	}
 
 	rval = EGLPNUM_TYPENAME_ILLlib_strongbranch (p->lp, p->pricing, candidatelist, ncand,
